@@ -172,6 +172,29 @@ def audit_cases():
          {'a.xml': '<x><enum name="E"><enum-member name="A0" value="1"/>%s</enum></x>' % ''.join(
              '<enum-member name="A%d" value="(A%d+A%d)/2+1"/>' % (i, i - 1, i - 1) for i in range(1, 40))}),
     ]
+    # round 2 of the audit (D123-D131)
+    deep = ''.join('<struct name="S%d"><member name="a" type="S%d"><dimension isVariableSize="true"/></member><member name="b" type="S%d"><dimension isVariableSize="true"/></member></struct>'
+                   % (k, k - 1, k - 1) for k in range(1, 41))
+    common = '<x><struct name="S0"><member name="a" type="u8"/></struct>%s</x>' % deep
+    cases += [
+        ('two equal copies of one isar file, 41 nested structs', ['--isar'] + outs + ['@D/app.xml'],
+         {'libA/common.xml': common, 'libB/common.xml': common, 'app.xml': XI % '<xi:include href="libA/common.xml"/><xi:include href="libB/common.xml"/>'}),
+        ('enumerators naming the previous one twice, the first one a constant of the file', ['--isar'] + outs + ['@D/a.xml'],
+         {'a.xml': '<x><constant name="K" value="1"/><enum name="E"><enum-member name="A0" value="K"/>%s</enum></x>' % ''.join(
+             '<enum-member name="A%d" value="(A%d+A%d)/2+1"/>' % (i, i - 1, i - 1) for i in range(1, 40))}),
+        ('nested 100-digit array extents and a union', allouts + ['@D/a.prophy'],
+         {'a.prophy': 'struct S0 { u8 a[%s]; };\n' % ('9' * 100) + ''.join('struct S%d { S%d a[%s]; };\n' % (k, k - 1, '9' * 100) for k in range(1, 5))
+          + 'union U { 1: S4 a; };\n'}),
+        ('44 nested 100-digit array extents', outs + ['--cpp_full_out', '@D', '@D/a.prophy'],
+         {'a.prophy': 'struct S0 { u8 a[%s]; };\n' % ('9' * 100) + ''.join('struct S%d { S%d a[%s]; };\n' % (k, k - 1, '9' * 100) for k in range(1, 44))}),
+        ('input file name of 255 characters', allouts + ['@D/%s.prophy' % ('m' * 248)], {'%s.prophy' % ('m' * 248): 'struct A { u8 a; };\n'}),
+        ('unterminated block comments, 60 KB', outs + ['@D/a.prophy'], {'a.prophy': '/* ' * 20000}),
+        ('one block comment of 2 MB', outs + ['@D/a.prophy'], {'a.prophy': '/*' + 'x' * 2000000 + '*/ struct A { u8 a; };'}),
+        ('isar include name with a line break, schema output', ['--isar', '--prophy_out', '@D', '@D/a.xml'],
+         {'a.xml': XI % '<xi:include href="types&#10;v2.xml" comment="a comment that is definitely longer than fifty characters in total"/>'}),
+        ('isar name ending in a line break, schema output', ['--isar', '--prophy_out', '@D', '@D/a.xml'],
+         {'a.xml': '<x><struct name="S&#10;" comment="a comment that is definitely longer than fifty characters in total"><member name="a" type="u8"/></struct></x>'}),
+    ]
     chain = dict(('f%d.prophy' % i, ('#include "f%d.prophy"\n' % (i + 1) if i < 249 else '') + 'struct S%d { u8 a; };\n' % i) for i in range(250))
     cases.append(('include chain of 250 files', outs + ['-I', '@D', '@D/f0.prophy'], chain))
     xchain = dict(('f%d.xml' % i, XI % (('<xi:include href="f%d.xml"/>' % (i + 1) if i < 249 else '') + '<struct name="S%d"><member name="a" type="u8"/></struct>' % i))
